@@ -3,6 +3,7 @@
 // faults are armed only around the library call.  For every API and parameter set a counting run records the n
 // allocation requests; then every position i < n fails alone, and every suffix "all from i on" fails.
 #include "vh_main.hpp"
+#include "argon2.hpp"
 #include <sys/mman.h>
 #include <errno.h>
 using namespace vh;
@@ -35,10 +36,13 @@ int __wrap_munmap(void *p, size_t n) { if (fi::armed && !fi::del(p)) fi::anomaly
 
 namespace {
 
-enum Api { PWHASH_I, PWHASH_ID, STR_ID, STR_I, STR_ALG_I, VERIFY_OK, VERIFY_BAD, VERIFY_I_OK, VERIFY_ID_SPECIFIC, NEEDS_REHASH, NEEDS_REHASH_DIFF, SCRYPT_RAW, SCRYPT_LL, SCRYPT_STR, SCRYPT_VERIFY_OK, SCRYPT_VERIFY_BAD, SODIUM_MALLOC, SODIUM_ALLOCARRAY, NAPI };
+enum Api { PWHASH_I, PWHASH_ID, STR_ID, STR_I, STR_ALG_I, VERIFY_OK, VERIFY_BAD, VERIFY_I_OK, VERIFY_ID_SPECIFIC, NEEDS_REHASH, NEEDS_REHASH_DIFF, SCRYPT_RAW, SCRYPT_LL, SCRYPT_STR, SCRYPT_VERIFY_OK, SCRYPT_VERIFY_BAD, SODIUM_MALLOC, SODIUM_ALLOCARRAY, VERIFY_LONG_OK, VERIFY_LONG_BAD, NAPI };
+bool is_alloc_api(int a) { return a == SODIUM_MALLOC || a == SODIUM_ALLOCARRAY; }
+bool is_long_api(int a) { return a == VERIFY_LONG_OK || a == VERIFY_LONG_BAD; }
 const char *AN[] = { "crypto_pwhash(argon2i)", "crypto_pwhash(argon2id)", "crypto_pwhash_str", "crypto_pwhash_argon2i_str", "crypto_pwhash_str_alg(argon2i)", "crypto_pwhash_str_verify(right password)", "crypto_pwhash_str_verify(wrong password)",
                      "crypto_pwhash_str_verify(argon2i string)", "crypto_pwhash_argon2id_str_verify", "crypto_pwhash_str_needs_rehash(same)", "crypto_pwhash_str_needs_rehash(different)", "crypto_pwhash_scryptsalsa208sha256",
-                     "crypto_pwhash_scryptsalsa208sha256_ll", "crypto_pwhash_scryptsalsa208sha256_str", "crypto_pwhash_scryptsalsa208sha256_str_verify(right)", "crypto_pwhash_scryptsalsa208sha256_str_verify(wrong)", "sodium_malloc", "sodium_allocarray" };
+                     "crypto_pwhash_scryptsalsa208sha256_ll", "crypto_pwhash_scryptsalsa208sha256_str", "crypto_pwhash_scryptsalsa208sha256_str_verify(right)", "crypto_pwhash_scryptsalsa208sha256_str_verify(wrong)", "sodium_malloc", "sodium_allocarray",
+                     "crypto_pwhash_str_verify(foreign string longer than 128 characters, right password)", "crypto_pwhash_str_verify(foreign string longer than 128 characters, wrong password)" };
 
 struct Case {
     int api; int pset; long fail_at; bool from;      // fail_at -1 = counting run
@@ -50,12 +54,13 @@ Params pset(int api, int i) {
     static const Params A[] = { { 3, 8192, 32, 0 }, { 4, 65536, 16, 0 }, { 3, 9216 + 512, 64, 0 }, { 3, 262144, 128, 0 } };
     static const Params S[] = { { 32768, 16777216, 32, 0 }, { 32768, 1 << 20, 16, 0 }, { 65536, 1 << 22, 64, 0 } };
     static const Params M[] = { { 0, 0, 0, 0 }, { 0, 0, 0, 1 }, { 0, 0, 0, 4095 }, { 0, 0, 0, 4096 }, { 0, 0, 0, 100000 } };
+    if (is_long_api(api)) return A[i % 4];
     if (api >= SODIUM_MALLOC) return M[i % 5];
     if (api >= SCRYPT_RAW) return S[i % 3];
     Params p = A[i % 4]; if (api == PWHASH_ID || api == STR_ID || api == VERIFY_OK || api == VERIFY_BAD || api == VERIFY_ID_SPECIFIC || api == NEEDS_REHASH || api == NEEDS_REHASH_DIFF) p.ops = 1 + (p.ops % 3);
     return p;
 }
-int npsets(int api) { return api >= SODIUM_MALLOC ? 5 : api >= SCRYPT_RAW ? 3 : 4; }
+int npsets(int api) { return is_long_api(api) ? 3 : api >= SODIUM_MALLOC ? 5 : api >= SCRYPT_RAW ? 3 : 4; }
 
 // result of one library call: success flag as the API reports it, plus whether the reported success is "real"
 struct Outcome { bool reported_success; bool produced; long requests; long hits; int live_after; long anomalies; std::string anomaly; };
@@ -70,6 +75,16 @@ Outcome call_api(const Case &c) {
     bool need_str = c.api >= VERIFY_OK && c.api <= NEEDS_REHASH_DIFF, need_sstr = c.api == SCRYPT_VERIFY_OK || c.api == SCRYPT_VERIFY_BAD;
     if (need_str) { int rc = (c.api == VERIFY_I_OK) ? crypto_pwhash_argon2i_str(str, PW, pwl, 3, p.mem) : crypto_pwhash_str(str, PW, pwl, p.ops, p.mem); if (rc != 0) { fprintf(stderr, "VH-INFRA cannot prepare hash string\n"); _exit(2); } }
     if (need_sstr && crypto_pwhash_scryptsalsa208sha256_str(sstr, PW, pwl, p.ops, p.mem) != 0) { fprintf(stderr, "VH-INFRA cannot prepare scrypt string\n"); _exit(2); }
+    // a hash string as another implementation writes it: longer salt and tag (and two lanes), more than crypto_pwhash_STRBYTES characters
+    std::string lstr;
+    if (is_long_api(c.api)) {
+        static const size_t SL[] = { 48, 16, 32 }, TL[] = { 64, 96, 64 }; static const uint32_t LANES[] = { 1, 1, 2 }, MK[] = { 32, 64, 48 };
+        int v = c.pset % 3; Bytes sl(SL[v]); for (size_t i = 0; i < sl.size(); i++) sl[i] = (uint8_t) (7 * i + 1 + (size_t) v);
+        Bytes pwb((const uint8_t *) PW, (const uint8_t *) PW + pwl);
+        Bytes tag = ref::argon2(2 - (v == 1), pwb, sl, 1 + (uint32_t) v, MK[v], LANES[v], (uint32_t) TL[v]);
+        lstr = ref::argon2_encode_string(2 - (v == 1), MK[v], 1 + (uint32_t) v, LANES[v], sl, tag);
+        if (tag.empty() || lstr.size() <= 128) { fprintf(stderr, "VH-INFRA cannot prepare the foreign hash string\n"); _exit(2); }
+    }
     memset(out, 0, sizeof out);
     Outcome o{ false, false, 0, 0, 0, 0, "" };
     void *ptr = nullptr; int rc = -1;
@@ -91,6 +106,8 @@ Outcome call_api(const Case &c) {
     case SCRYPT_STR: rc = crypto_pwhash_scryptsalsa208sha256_str(sstr, PW, pwl, p.ops, p.mem); break;
     case SCRYPT_VERIFY_OK: rc = crypto_pwhash_scryptsalsa208sha256_str_verify(sstr, PW, pwl); break;
     case SCRYPT_VERIFY_BAD: rc = crypto_pwhash_scryptsalsa208sha256_str_verify(sstr, BAD, pwl); break;
+    case VERIFY_LONG_OK: rc = crypto_pwhash_str_verify(lstr.c_str(), PW, pwl); break;
+    case VERIFY_LONG_BAD: rc = crypto_pwhash_str_verify(lstr.c_str(), BAD, pwl); break;
     case SODIUM_MALLOC: ptr = sodium_malloc(p.size); rc = ptr ? 0 : -1; break;
     case SODIUM_ALLOCARRAY: ptr = sodium_allocarray(p.size ? 3 : 0, p.size); rc = ptr ? 0 : -1; break;
     }
@@ -117,9 +134,9 @@ bool run(const Case &c, std::string &msg) {
     if (o.anomalies) { snprintf(b, sizeof b, "%s [pset %d, fail_at %ld%s]: %s", AN[c.api], c.pset, c.fail_at, c.from ? "+" : "", o.anomaly.c_str()); msg = b; return false; }
     if (o.live_after != 0) { snprintf(b, sizeof b, "%s [pset %d, fail_at %ld%s]: %d allocation(s) still live after the call (leak)", AN[c.api], c.pset, c.fail_at, c.from ? "+" : "", o.live_after); msg = b; return false; }
     if (c.fail_at < 0) {
-        bool want = (c.api != VERIFY_BAD && c.api != SCRYPT_VERIFY_BAD);
+        bool want = (c.api != VERIFY_BAD && c.api != SCRYPT_VERIFY_BAD && c.api != VERIFY_LONG_BAD);
         if (o.reported_success != want) { snprintf(b, sizeof b, "%s [pset %d] without faults: success=%d, expected %d", AN[c.api], c.pset, o.reported_success, want); msg = b; return false; }
-        if (o.requests == 0 && c.api < SODIUM_MALLOC) { snprintf(b, sizeof b, "%s made no allocation request at all (interposition ineffective?)", AN[c.api]); msg = b; return false; }
+        if (o.requests == 0 && !is_alloc_api(c.api)) { snprintf(b, sizeof b, "%s made no allocation request at all (interposition ineffective?)", AN[c.api]); msg = b; return false; }
         return true;
     }
     if (o.hits == 0) return true;       // the armed position was not reached (earlier failure changed the path): nothing to assert
@@ -134,10 +151,10 @@ void explore(Ctx &ctx) {
     for (int api = 0; api < NAPI; api++)
         for (int ps = 0; ps < npsets(api); ps++) {
             if (!ctx.mine(idx++)) continue;
-            if (!ctx.thorough() && api < SODIUM_MALLOC && ps == 3) continue;
+            if (!ctx.thorough() && !is_alloc_api(api) && ps == 3) continue;
             // every backend the build can select: all features, no SIMD at all (scrypt nosse, Argon2 ref), SSSE3 only, AVX2 only
             std::vector<unsigned long> masks = { F_ALL };
-            if (api < SODIUM_MALLOC) for (auto &m : mask_set(false)) if (m.name == "none" || m.name == "-avx2" || m.name == "-avx512f" || m.name == "-ssse3") masks.push_back(m.mask);
+            if (!is_alloc_api(api)) for (auto &m : mask_set(false)) if (m.name == "none" || m.name == "-avx2" || m.name == "-avx512f" || m.name == "-ssse3") masks.push_back(m.mask);
             for (unsigned long mask : masks) {
                 Case cnt{ api, ps, -1, false }; cnt.mask = mask;
                 if (!exec_case(ctx, cnt, run, mix64(mix64(api, ps), mix64(999999, mask)), false)) continue;
